@@ -123,6 +123,8 @@ VERUS_UNITS = {
             (r'register_(insertion|mutation|removal|any_entity_event|resource_mutation|broadcast)_reactor$', ['C01', 'C07']),
             (r'register_entity_reactor$', ['C01', 'C07', 'C18']),
             (r'track_removals$', ['C08']),
+            (r'register_reactors$', ['C07', 'C01']),
+            (r'ReactorMode::prepare$', ['C07']),
         ],
         'negctl': [
             ('ensures r == ReactorType::EntityMutation(self.0, type_id_spec::<C>()),', 'ensures r == ReactorType::EntityInsertion(self.0, type_id_spec::<C>()),', 'EntityMutationTrigger::reactor_type'),
